@@ -8,6 +8,10 @@ import Driver.Util
    c15 hnd <setup> <cmd,cmd,…>  -> the same line: config changes applied to ONE open handle, the next command run on that handle
                                    (the table has a single flag: `Props/C15.handle_flag_is_table_flag`)
    c15 dry <damage> <cmd>       -> ok <cmd>=-                     a dry-run flag issues no storage operation at all
+   backup tokens `backup[.cmd|.local][.dry].<new|same>`: source kind (none = `Repository::archive` with the harness' ReadSource,
+                                   local = `Repository::backup` of a directory, cmd = `Repository::backup` of `-` with a stdin command)
+                                   x dry-run flag; `cmdOfToken` maps them to `.backup <BackupSource> <dry>` — the same expectation for
+                                   every source kind (`Props/C15.backup_dry_run_no_mutation_for_every_source`)
    c15 dryt <damage> <cmd>      -> ok <cmd>=- twin=<result>:<kinds of the non-dry twin> -/
 namespace Driver.C15
 open Rustic.CommandTable
